@@ -62,6 +62,8 @@ impl Group for C11Sim {
             c("world redb|al add g|blk+ g|vh 0 g 0|rv 0|forget 0|blk+ g|blkn 3|newch 2|ks 1000|restart|scp 0 0|blk- g"),
             // blocks through the protocol handler's AddBlock arm, with and without a ready channel
             c("HBLK+ g|restart|HBLK+ b|HBLK+ g|blk- g|restart|HBLK+ g"),
+            // channel creation / forgetting / heartbeat through the protocol handler
+            c("HNEW 2|restart|HFORGET 1|restart|HNEW 3|blkn 7|HHB|restart|HNEW 2"),
             // a full channel map
             c("newch 1|newch 2|newch 3|newch 4|restart|newch 4|forget 2|newch 4|restart|newch 5"),
             // closing through either entry point must be durable
@@ -105,9 +107,14 @@ impl Group for C11Sim {
             if rng.chance(4, 5) { pre.push("act".to_string()); }
             for (i, o) in pre.into_iter().enumerate() { ops.insert(i, o); }
         }
-        // blocks arrive through the protocol handler in a third of the cases
+        // blocks and the node-level requests arrive through the protocol handler's arms in a third of the cases
         for i in 0..ops.len() {
-            if ops[i].starts_with("blk+ ") && rng.chance(1, 3) { ops[i] = ops[i].replacen("blk+", "HBLK+", 1); }
+            if rng.chance(1, 3) {
+                if ops[i].starts_with("blk+ ") { ops[i] = ops[i].replacen("blk+", "HBLK+", 1); }
+                else if let Some(r) = ops[i].strip_prefix("newch ") { ops[i] = format!("HNEW {}", r); }
+                else if let Some(r) = ops[i].strip_prefix("forget ") { ops[i] = format!("HFORGET {}", r); }
+                else if ops[i] == "hb" { ops[i] = "HHB".to_string(); }
+            }
         }
         // sometimes the last request runs while the store refuses writes (in `world backup`: either side)
         if rng.chance(1, 4) {
